@@ -35,34 +35,107 @@ func (p *Prog) VerifyLemma(ld *LemmaDecl) (res *FuncResult) {
 	env := &Env{T: p.T, prefix: "lemma_" + ld.L.Name}
 	heap := map[string]*smt.Term{}
 	sc := &scope{vars: map[string]SV{}}
-	ev := &Eval{P: p, Env: env, Pkg: ld.Pkg, Heap: heap, Old: heap, Scope: sc, TParams: map[string]types.Type{}}
 	var hyps []*smt.Term
 	var labs []string
+	ev := &Eval{P: p, Env: env, Pkg: ld.Pkg, Heap: heap, Old: heap, Scope: sc, TParams: lemmaTParams(ld, nil), ufSeen: map[*smt.Term]int{}}
+	// definitions of recursive specification functions met while evaluating (see specrec.go)
+	ev.Facts = func(t *smt.Term) {
+		hyps = append(hyps, t)
+		labs = append(labs, "definition of a specification function / type invariant")
+	}
 	var inputs []NamedTerm
+	paramTypes := map[string]types.Type{}
 	for _, prm := range ld.L.Params {
 		t := ev.ResolveType(prm.Type)
+		paramTypes[prm.Name] = t
 		c := flatConst("in$"+sanitize(prm.Name), p.T.SortOf(t))
 		hyps = append(hyps, p.T.Inv(c, t, 0))
 		labs = append(labs, "type invariant of "+prm.Name)
 		sc.vars[prm.Name] = ev.FromVal(c, t)
 		inputs = append(inputs, NamedTerm{Name: prm.Name, T: c, Type: t.String()})
 	}
+	// axioms of the package
+	if ld.Pkg != nil {
+		for _, ax := range p.Axioms[ld.Pkg.Path()] {
+			func() {
+				defer func() {
+					if r := recover(); r != nil {
+						if _, ok := r.(specErr); !ok {
+							panic(r)
+						}
+					}
+				}()
+				ev.Pos = ax.C.Pos
+				t := ev.Bool(ax.C.E)
+				hyps = append(hyps, t)
+				labs = append(labs, "axiom "+ax.C.Text)
+				p.Assumptions["axiom ("+ax.C.Pos.String()+"): "+ax.C.Text] = true
+			}()
+		}
+	}
 	for i, r := range ld.L.Requires {
 		ev.Pos = r.Pos
 		hyps = append(hyps, ev.Bool(r.E))
 		labs = append(labs, fmt.Sprintf("requires[%d]", i))
 	}
+	// lemma applications: earlier lemmas, and the lemma itself on a structurally smaller argument
+	_, self := p.findLemma(ld.Pkg, ld.L.Name)
+	for _, u := range ld.L.Uses {
+		ev.Pos = u.Pos
+		var args []SV
+		for _, a := range u.Args {
+			args = append(args, ev.Eval(a))
+		}
+		if u.Name == ld.L.Name {
+			i := structuralUse(ld.L, u)
+			if i < 0 {
+				panic(specErr{fmt.Sprintf("%s: a lemma may use itself only on a field of one of its parameters (structural induction)", u.Pos)})
+			}
+			oi := p.T.OwnedOf(paramTypes[ld.L.Params[i].Name])
+			if oi == nil {
+				panic(specErr{fmt.Sprintf("%s: induction parameter %s is not a pointer to an owned type", u.Pos, ld.L.Params[i].Name)})
+			}
+			// every selector step of the argument must be applied to a non-nil node
+			guard := smt.True
+			a := u.Args[i]
+			for {
+				sel, ok := a.(*spec.Selector)
+				if !ok {
+					break
+				}
+				guard = smt.And(guard, smt.Not(oi.IsNil(ev.term(ev.Eval(sel.X)))))
+				a = sel.X
+			}
+			hyps = append(hyps, smt.Implies(guard, p.lemmaInstance(ev, ld, args, u.Pos)))
+			labs = append(labs, "induction hypothesis "+u.Text)
+			continue
+		}
+		other, idx := p.findLemma(ld.Pkg, u.Name)
+		if other == nil {
+			panic(specErr{fmt.Sprintf("%s: unknown lemma %s", u.Pos, u.Name)})
+		}
+		if idx >= self {
+			panic(specErr{fmt.Sprintf("%s: lemma %s is declared after %s (lemmas may use only earlier ones)", u.Pos, u.Name, ld.L.Name)})
+		}
+		hyps = append(hyps, p.lemmaInstance(ev, other, args, u.Pos))
+		labs = append(labs, "lemma "+u.Text)
+	}
 	name := func(s string) string { return pkgShort(res.Pkg) + "." + ld.L.Name + "#" + s }
+	// goals first: evaluating them adds the definitions they need to the hypotheses
+	var goals []*smt.Term
+	for _, e := range ld.L.Ensures {
+		ev.Pos = e.Pos
+		goals = append(goals, ev.Bool(e.E))
+	}
 	res.Queries = append(res.Queries, &Query{Func: res.Key, Ob: name("cover.requires"), Kind: "cover", Cover: true,
 		Hyps: hyps, HypLabs: labs, Goal: smt.False, Desc: "lemma premises are satisfiable"})
 	for i, e := range ld.L.Ensures {
-		ev.Pos = e.Pos
 		lab := fmt.Sprintf("lemma[%d]", i)
 		if e.Label != "" {
 			lab = "lemma." + e.Label
 		}
 		res.Queries = append(res.Queries, &Query{Func: res.Key, Ob: name(lab), Kind: "lemma", Hyps: hyps, HypLabs: labs,
-			Goal: ev.Bool(e.E), Desc: "lemma " + ld.L.Name + ": " + e.Text, Inputs: inputs})
+			Goal: goals[i], Desc: "lemma " + ld.L.Name + ": " + e.Text, Inputs: inputs})
 	}
 	res.Paths = 1
 	return res
